@@ -108,7 +108,9 @@ class History(Part):
     chunk = 100
 
     def strategy(self, tier):
-        s = st.one_of(chars.mixed_text(12), chars.mixed_text(80, min_size=60), st.text(st.characters(blacklist_categories=("Cs",)), max_size=10))
+        # lengths around the cache's 64-character limit and its multiples
+        boundary = st.builds(lambda unit, n, cut: (unit * 300)[:n - cut], st.sampled_from(["a", "ab", chars.WIDE[0], "a" + chars.WIDE[1], "x" + chars.ZERO[0]]), st.sampled_from([64, 128, 192, 256]), st.sampled_from([0, 0, 1]))
+        s = st.one_of(chars.mixed_text(12), chars.mixed_text(80, min_size=60), st.text(st.characters(blacklist_categories=("Cs",)), max_size=10), boundary)
         q = st.tuples(st.just("q"), s)
         again = st.tuples(st.just("again"), st.integers(0, 30))
         flood = st.one_of(st.tuples(st.just("flood_str"), st.integers(0, 5)), st.tuples(st.just("flood_cp"), st.integers(0, 5)))
@@ -169,8 +171,9 @@ class Resize(Part):
     budget = {"quick": (4, 1500), "thorough": (16, 12000)}
 
     def strategy(self, tier):
-        s = st.one_of(chars.mixed_text(80), chars.mixed_text(12), st.text(st.sampled_from(chars.WIDE + "ab" + chars.ZERO), max_size=30))
-        a = st.builds(lambda s, n: {"op": "set", "s": s, "n": n}, s, st.integers(0, 100))
+        boundary = st.builds(lambda unit, n, cut: (unit * 300)[:n - cut], st.sampled_from(["a", "ab", chars.WIDE[0], "a" + chars.WIDE[1]]), st.sampled_from([64, 128, 192]), st.sampled_from([0, 0, 1]))
+        s = st.one_of(chars.mixed_text(80), chars.mixed_text(12), st.text(st.sampled_from(chars.WIDE + "ab" + chars.ZERO), max_size=30), boundary)
+        a = st.builds(lambda s, n: {"op": "set", "s": s, "n": n}, s, st.one_of(st.integers(0, 100), st.integers(0, 400)))
         a2 = st.builds(lambda s, d: {"op": "set", "s": s, "n": max(0, OC.width(s) + d)}, s, st.integers(-6, 3))
         b = st.builds(lambda s, w, p: {"op": "chop", "s": s, "w": w, "p": min(p, w)}, s, st.integers(2, 40), st.integers(0, 40))
         return st.one_of(a, a2, b)
